@@ -111,6 +111,25 @@ def run(ctx, prop=PROP, judge=None, what=WHAT):
         nsched, bad2 = sched_part(ctx, r, quick, judge)
         bad += bad2
     dist["sched_runs_many_hosts"] = nsched
+    # ---- part C: real children; a later host's command cannot be started (execvp fails in the forked child) while an earlier
+    #      host's unterminated record still sits in pdsh's stdio buffer: nothing may be written twice or under another label
+    if bad < 6:
+        import realeng
+        real = realeng.Real(ctx, tag="real05")
+        nx = 0
+        for rep in range(2 if quick else 6):
+            script = os.path.join(ctx.scratch, "once%d.sh" % rep)
+            with open(script, "w") as fh:
+                fh.write("#!/bin/sh\nprintf 'abc-%s' \"$1\"\nrm -f \"$0\"\n")
+            os.chmod(script, 0o755)
+            rc, o, e = real.run(["-R", "exec", "-f", "1", "-w", "a,b,c", script, "%h"], timeout=30)
+            nx += 1
+            if o != b"a: abc-a":
+                bad += 1
+                ctx.violation("input", case={"transport": "exec", "hosts": "a,b,c", "fanout": 1, "command": "a script that prints an unterminated record and removes itself"},
+                              expected="standard output is exactly b'a: abc-a'", observed=repr(o[:200]), engine="exec",
+                              detail="the command of b and c cannot be started; the record of a must appear once, under its own label: got %r (stderr %r)" % (o[:120], e[-160:]))
+        dist["exec_failure_runs"] = nx
     have_input = any(v["kind"] != "no-failing-input-found" for v in ctx.violations)
     vlib.report_proof_break(ctx, have_input)
     cov = vlib.proof_coverage(ctx, {
